@@ -324,6 +324,30 @@ pub fn gen_atom(r: &mut Rng, cfg: &GenCfg) -> Value {
     }
 }
 
+/// A wide, shallow value: 130..300 elements of ONE kind in a list or a vector, possibly one level
+/// down. What a parser does per element of a kind (a budget it charges, a buffer it reuses) adds up
+/// here and nowhere else: nesting limits are about depth, not about how many datums sit side by side.
+pub fn gen_wide(r: &mut Rng) -> Value {
+    let n = 130 + r.below(171) as usize;
+    let kind = r.below(9);
+    let mut elems: Vec<Value> = Vec::with_capacity(n);
+    for i in 0..n {
+        elems.push(match kind {
+            0 => Value::bytes(vec![(i % 256) as u8]),
+            1 => Value::bytes(Vec::<u8>::new()),
+            2 => Value::Vector(vec![Value::from(i as u64)].into()),
+            3 => Value::list(vec![Value::symbol("quote"), Value::symbol("x")]),
+            4 => Value::list(vec![Value::from(i as u64)]),
+            5 => Value::string(format!("s{}", i)),
+            6 => Value::Char(char::from_u32(0x61 + (i % 26) as u32).unwrap()),
+            7 => Value::keyword(format!("k{}", i)),
+            _ => Value::cons(Value::symbol("a"), Value::bytes(vec![1u8, 2])),
+        });
+    }
+    let body = if r.chance(1, 2) { Value::list(elems) } else { Value::Vector(elems.into()) };
+    match r.below(3) { 0 => body, 1 => Value::list(vec![Value::symbol("wide"), body]), _ => Value::Vector(vec![body, Value::Null].into()) }
+}
+
 pub fn gen_value(r: &mut Rng, cfg: &GenCfg, depth: u32) -> Value {
     if depth >= cfg.max_depth || r.chance(2, 5) {
         return gen_atom(r, cfg);
